@@ -16,6 +16,8 @@ NCPU = int(os.environ.get('VF_JOBS', '16'))
 CONFIGS = {
     'abacus': ['-std=c++17', '-DFIXEDMATH_ENABLE_SQRT_ABACUS_ALGO'],
     'stdsqrt': ['-std=c++17'],
+    # verification hook (MANIFEST.hooks): the portable (non-GNU) branch of detail::checked_multiply
+    'portable': ['-std=c++17', '-DFIXEDMATH_ENABLE_SQRT_ABACUS_ALGO', '-DFIXEDMATH_VERIF_PORTABLE_MULTIPLY'],
 }
 CBMC_CHECKS = ['--signed-overflow-check', '--undefined-shift-check', '--div-by-zero-check',
                '--bounds-check', '--pointer-check', '--float-overflow-check', '--nan-check']
